@@ -1,7 +1,7 @@
 (** C05, second part: buffer / in-flight accounting ([HInv]), [send_streams] accounting ([SInv]),
     [unacked_data = sum of the per-stream unacknowledged bytes], and absence of panics for every
     admissible operation of [FlowSend.apply]. *)
-From QV Require Import Lib.Tac Lib.Corr Model.FlowSend Proofs.FlowSendAcc Proofs.RangeSetProofs
+From QV Require Import Lib.Tac Lib.Corr Model.FlowSend Proofs.FlowSendAcc Proofs.FlowRangeSet
   Proofs.FlowSendProofs.
 Open Scope Z_scope.
 
